@@ -504,6 +504,23 @@ def r5_proxy(ctx):
     ok_it = canon_lines(it.node) in (["return iter($0.subset)"], ["yield from $0.subset"])
     ok_ln = canon_lines(ln.node) == ["return len($0.subset)"]
     ctx.check(ok_it, "C15.R5", it, it.node, "iterates the subset it was given", f"FilteredMappingProxy.__iter__ is `{'; '.join(canon_lines(it.node))[:90]}`: the per-type listing can drop (or reorder) variables of the graph")
+    # ... in the order it was given (the graph hands it the names in topological order): no method of the proxy re-binds `subset` to a re-ordered copy
+    cls_ = ctx.ix.classes.get(("leaspy.utils.filtered_mapping_proxy", "FilteredMappingProxy"))
+    reord = []
+    for b in (cls_.body if cls_ is not None else []):
+        if not isinstance(b, ast.FunctionDef):
+            continue
+        for c in ast.walk(b):
+            val = None
+            if isinstance(c, ast.Call) and U(c.func) in ("object.__setattr__", "setattr") and len(c.args) == 3 and U(c.args[1]) == "'subset'":
+                val = c.args[2]
+            if isinstance(c, ast.Assign) and any(U(t) == "self.subset" for t in c.targets):
+                val = c.value
+            if val is not None and any(isinstance(x, ast.Call) and (U(x.func) in ("sorted", "reversed", "set", "frozenset") or (isinstance(x.func, ast.Attribute) and x.func.attr in ("sort", "reverse"))) for x in ast.walk(val)):
+                reord.append(c)
+    ctx.check(not reord, "C15.R5", it, reord[0] if reord else it.node, "the subset is kept in the order it was given",
+              f"`{U(reord[0])[:60] if reord else ''}` re-orders the names the proxy was given: the per-type listings no longer follow the topological order (a derived variable can be listed before one it depends on)",
+              construct="subset order kept")
     ctx.check(ok_ln, "C15.R5", ln, ln.node, "length of the subset", f"FilteredMappingProxy.__len__ is `{'; '.join(canon_lines(ln.node))[:90]}`: not the number of names it was given", construct="__len__")
 
 
